@@ -198,3 +198,29 @@ Definition client_reader_step (known : bool) (payload : bytes) : res (option byt
   | Err _ => Ok None
   | Panic p => Panic p
   end.
+
+(** * liteclient.LiteapiRequestDecoder (decoder.go): bytes of a request received from a peer.
+    Too short: an error.  Otherwise the constructor tag selects a request type from the
+    generated table; tl.Unmarshal of the rest into it; any failure (unknown tag, decoding
+    error) answers "Unknown" with a nil error.  [Some ty]: the Go type decoded. *)
+Fixpoint lookup_request (tbl : list (N * N * String.string * String.string)) (tag : N) : option String.string :=
+  match tbl with
+  | [] => None
+  | (t, _, ty, _) :: tl => if N.eqb t tag then Some ty else lookup_request tl tag
+  end.
+
+Definition request_decode (B : bindings) (tbl : list (N * N * String.string * String.string))
+           (fuel : nat) (b : bytes) : res (option String.string) :=
+  if short 4 b then Err EOther
+  else
+    do h <- slice_to 4 b;
+    do rest <- slice_from 4 b;
+    match lookup_request tbl (le_num h) with
+    | None => Ok None
+    | Some ty =>
+        match fst (tl_unmarshal B fuel (GNamed ty) rest) with
+        | Ok _ => Ok (Some ty)
+        | Err _ => Ok None
+        | Panic p => Panic p
+        end
+    end.
